@@ -31,6 +31,7 @@ RULE = ('cases: batcher programs with every option (max_batch_size, max_concurre
         '(a batch reaches the size limit, the concurrency limit, a gap near batch_timeout, a call inside the retention window, a '
         'burst judged against timeout, an eviction) or >=2 loops are used; distinct by case hash')
 ASSUMPTIONS = ['virtual-time loop / cooperative shims faithful (selftest)', 'oracles of C08, C10, C11, C14 as stated there']
+CORPUS_PREEMPTIONS = {}
 BUDGET = {'quick': 250, 'thorough': 6000}
 ESSENTIAL = ['nontrivial', 'kind=batcher', 'kind=buffer', 'kind=cache', 'kind=loops']
 U = HB.U
